@@ -94,7 +94,11 @@ class W:
         n = ctx.choice("n", N + 1)
         for i in range(n):
             o = (MP2 if (not veq and "root-sub" in needs and ctx.flag("is2_%d" % i)) else P)(a=ctx.fresh_int("a%d" % i))
-            o.kid = self.pool[ctx.choice("kid%d" % i, len(self.pool))]
+            if "kid-none" in needs:
+                kc = ctx.choice("kid%d" % i, len(self.pool) + 1)
+                o.kid = self.pool[kc] if kc < len(self.pool) else None  # an Optional attribute that is not set
+            else:
+                o.kid = self.pool[ctx.choice("kid%d" % i, len(self.pool))]
             if "kids" in needs:
                 mask = ctx.choice("kids%d" % i, 2 ** len(self.pool))
                 o.kids = [q for j, q in enumerate(self.pool) if mask >> j & 1]
@@ -163,12 +167,13 @@ def _p4b(w):
     return dict(kid=match(w.Q)(v=w.k[0], w=w.k[1])), (lambda o: AND(EQ(o.kid.v, w.k[0]), EQ(o.kid.w, w.k[1]))), {}
 
 
-@pattern("kid=match(Q2)(v=k) (subclass)", needs=("sub",), veq_ok=False)
+@pattern("kid=match(Q2)(v=k) (subclass)", needs=("sub", "kid-none"), veq_ok=False)
 def _p5(w):
-    return dict(kid=match(MQ2)(v=w.k[0])), (lambda o: AND(isinstance(o.kid, MQ2), EQ(o.kid.v, w.k[0]))), {}
+    # the type filter also keeps unset (None) and differently typed values away from the attribute constraints
+    return dict(kid=match(MQ2)(v=w.k[0])), (lambda o: AND(isinstance(o.kid, MQ2), EQ(o.kid.v, w.k[0])) if isinstance(o.kid, MQ2) else False), {}
 
 
-@pattern("kid=match(Q2)() (type only)", needs=("sub",), veq_ok=False)
+@pattern("kid=match(Q2)() (type only)", needs=("sub", "kid-none"), veq_ok=False)
 def _p6(w):
     return dict(kid=match(MQ2)()), (lambda o: isinstance(o.kid, MQ2)), {}
 
